@@ -82,6 +82,15 @@ def oracle_fold(text, k, fb, valid):
         un = call_impl(folding.unfold, tf, index)
         if un != ('ok', [(x, 't') for x in text]):
             return 'unfold of transformed folds is not the transformed text'
+        # the transformed folds handed over lazily (a map object, a generator, an iterator over a tuple), as a caller
+        # writes unfold(map(segment_fold, folds), index): same answer as with a list
+        want = [(x, 't') for x in text]
+        for kind, lazy in (('map', lambda: map(lambda f: [(x, 't') for x in f], folds)),
+                           ('generator', lambda: ([(x, 't') for x in f] for f in folds)),
+                           ('iterator', lambda: iter(tuple(tf))), ('tuple', lambda: tuple(tuple(f) for f in tf))):
+            un = call_impl(folding.unfold, lazy(), index)
+            if un[0] != 'ok' or list(un[1]) != want:
+                return 'unfold of transformed folds given as a %s is not the transformed text: %r' % (kind, un if un[0] != 'ok' else un[1][:4])
         # a transformation whose values are lists (tokenised lines), some of them empty or nested: lines stay opaque
         def tok(x):
             return [] if x % 4 == 1 else [['n', x]] if x % 4 == 2 else ['L%d' % x, x]
